@@ -1,1 +1,50 @@
-//! Chain generator shared by the executor-based monitors.
+//! Chain session generator shared by the executor-based monitors.
+//!
+//! See `README.md` in this crate for the API overview.
+
+pub mod canon;
+pub mod programs;
+pub mod session;
+pub mod source;
+pub mod txgen;
+
+pub use canon::{
+    CanonOp,
+    canonical_changes,
+    diff_changes,
+    first_debug_diff,
+    rfc6962_root,
+};
+pub use session::{
+    ChainSession,
+    CommittedBlock,
+    ContractInfo,
+    GenesisState,
+    Owner,
+    Produced,
+    SessionConfig,
+    Strategy,
+    Validated,
+};
+pub use source::{
+    HarnessSource,
+    SourceCall,
+    SourceKind,
+    metered_size,
+};
+pub use txgen::{
+    BlockPlan,
+    CheckedMode,
+    GenOptions,
+    PlannedTx,
+    ScriptInfo,
+    TxKind,
+    Twist,
+};
+
+// re-exports so that users need not repeat the dependency list
+pub use fuel_core;
+pub use fuel_core_executor;
+pub use fuel_core_storage;
+pub use fuel_core_types;
+pub use fuel_core_upgradable_executor;
